@@ -10,11 +10,13 @@ import concurrent.futures
 import json
 import os
 import shutil
+import threading
 import time
 
 import vf
 
 PID = "C11"
+JVM = threading.BoundedSemaphore(2)     # never more than two TLC JVMs at once
 
 PRIO = ["IdxMonotone", "ViewExact", "NoSkip", "ClosedNeverData", "AclCloses", "RestoreCloses", "Conform", "QueueLen",
         "UnknownCommand"]
@@ -73,33 +75,34 @@ ASIS = dict(GGap="FALSE", GRestore="FALSE")
 
 TIERS = {
     "quick": {
-        # conforming variant: all properties must hold
-        "mc": [("health", dict(MaxSubs=1, MaxCommits=2))],
+        # conforming variant: all properties must hold ; (name, constants, coverage)
+        "mc": [("health", dict(MaxSubs=1, MaxCommits=2), False)],
         # the code as it is: the model is expected to exhibit the recorded findings
         "asis": [("gap", dict(GGap="FALSE", Profile=P("one"), NC=1, MaxSubs=1))],
         "edge": [("one", dict(Profile=P("one"), NC=1, MaxCommits=2, MaxSubs=2, **ASIS))],
-        "sim": [("mixed", dict(Profile=P("mixed"), MaxCommits=3, MaxRestores=1, Ttls="{FALSE, TRUE}", **ASIS), 100, 30)],
-        "rnd": (60, 60),
+        "sim": [("mixed", dict(Profile=P("mixed"), MaxCommits=3, MaxRestores=1, Ttls="{FALSE, TRUE}", **ASIS), 60, 30)],
+        "rnd": (40, 50),
+        "chunk": 10000,
     },
     "thorough": {
-        "mc": [("health", dict()),
-               ("health+cache", dict(Ttls="{TRUE}", MaxSubs=2, MaxCommits=2)),
-               ("mixed", dict(Profile=P("mixed"))),
-               ("acl", dict(Profile=P("acl"), MaxCommits=3)),
-               ("one+restore", dict(Profile=P("one"), MaxCommits=2, MaxRestores=1)),
-               ("wild+cache", dict(Profile=P("wild"), MaxCommits=3, MaxSubs=1, Ttls="{TRUE}"))],
+        "mc": [("one+cache+restore", dict(Profile=P("one"), MaxSubs=1, MaxRestores=1, Ttls="{FALSE, TRUE}"), True),
+               ("health", dict(), False),
+               ("mixed", dict(Profile=P("mixed"), MaxSubs=1), False),
+               ("acl", dict(Profile=P("acl"), MaxCommits=2), False),
+               ("wild+cache", dict(Profile=P("wild"), MaxSubs=1, Ttls="{TRUE}"), False),
+               ("conn", dict(Profile=P("conn"), MaxSubs=1, Ttls="{FALSE, TRUE}"), False)],
         "asis": [("gap", dict(GGap="FALSE", Profile=P("one"), NC=1, MaxSubs=1)),
                  ("restore", dict(GRestore="FALSE", Profile=P("one"), MaxCommits=2, MaxRestores=1))],
-        "edge": [("one", dict(Profile=P("one"), NC=1, MaxCommits=2, MaxSubs=2, **ASIS)),
-                 ("one+cache", dict(Profile=P("one"), NC=1, MaxCommits=2, MaxSubs=2, Ttls="{TRUE}", **ASIS)),
-                 ("one+restore", dict(Profile=P("one"), NC=1, MaxCommits=2, MaxSubs=2, MaxRestores=1, **ASIS)),
+        "edge": [("one+cache", dict(Profile=P("one"), NC=1, MaxCommits=2, MaxSubs=2, Ttls="{TRUE}", **ASIS)),
+                 ("one+restore", dict(Profile=P("one"), NC=1, MaxCommits=2, MaxSubs=1, MaxRestores=1, **ASIS)),
                  ("conn", dict(Profile=P("conn"), NC=1, MaxCommits=2, MaxSubs=1, **ASIS)),
                  ("wild", dict(Profile=P("wild"), NC=1, MaxCommits=2, MaxSubs=1, **ASIS)),
-                 ("acl", dict(Profile=P("acl"), NC=2, MaxCommits=2, MaxSubs=1, **ASIS))],
-        "sim": [("mixed", dict(Profile=P("mixed"), MaxCommits=4, MaxRestores=1, Ttls="{FALSE, TRUE}", **ASIS), 500, 40),
-                ("health", dict(MaxCommits=4, MaxRestores=1, Ttls="{FALSE, TRUE}", **ASIS), 500, 40),
-                ("acl", dict(Profile=P("acl"), MaxCommits=4, MaxRestores=1, Ttls="{FALSE, TRUE}", **ASIS), 200, 40)],
-        "rnd": (400, 80),
+                 ("acl", dict(Profile=P("acl"), NC=1, MaxCommits=2, MaxSubs=2, **ASIS))],
+        "sim": [("mixed", dict(Profile=P("mixed"), MaxCommits=4, MaxRestores=1, Ttls="{FALSE, TRUE}", **ASIS), 100, 30),
+                ("health", dict(MaxCommits=4, MaxRestores=1, Ttls="{FALSE, TRUE}", **ASIS), 100, 30),
+                ("acl", dict(Profile=P("acl"), MaxCommits=4, MaxRestores=1, Ttls="{FALSE, TRUE}", **ASIS), 60, 30)],
+        "rnd": (120, 80),
+        "chunk": 25000,
     },
 }
 
@@ -242,7 +245,8 @@ def antecedents(rows):
 # ----------------------------------------------------------------------------- pipeline
 
 def validate(tp, nevents):
-    return vf.tlc_validate("StreamTrace", "StreamTrace.cfg", tp, nevents=nevents, timeout=3000, heap="8g")
+    with JVM:
+        return vf.tlc_validate("StreamTrace", "StreamTrace.cfg", tp, nevents=nevents, timeout=3000, heap="8g")
 
 
 def harness_replay(binary, behs, tp, work, tag, extra=()):
@@ -262,16 +266,14 @@ def finding_files():
     return sorted(os.path.join(d, f) for f in os.listdir(d) if f.startswith("C11-") and f.endswith(".json"))
 
 
-CHUNK_EVENTS = 22000     # recorded steps per trace file / TLC validation run
-
-
-def _chunks(tagged, per_beh_extra=6):
-    """split [(source, behaviour)] into lists of roughly CHUNK_EVENTS recorded steps"""
+def _chunks(tagged, chunk_events, per_beh_extra=5):
+    """split [(source, behaviour)] into lists of roughly chunk_events recorded steps (one trace file and one TLC
+    validation run each)"""
     out, cur, n = [], [], 0
     for src, b in tagged:
         cur.append((src, b))
         n += len(b) + per_beh_extra
-        if n >= CHUNK_EVENTS:
+        if n >= chunk_events:
             out.append(cur)
             cur, n = [], 0
     if cur:
@@ -290,19 +292,21 @@ def run(tier):
 
     def model_checking():
         # 1. the property-conforming variant satisfies the property on the bounded model
-        for name, kw in T["mc"]:
-            r = vf.tlc_mc("StreamMC", "mc.cfg", files={"mc.cfg": _cfg("mc", **kw)}, timeout=2400, heap="12g",
-                          workers=min(8, vf.NCPU), coverage=(tier == "thorough"))
+        for name, kw, withcov in T["mc"]:
+            with JVM:
+                r = vf.tlc_mc("StreamMC", "mc.cfg", files={"mc.cfg": _cfg("mc", **kw)}, timeout=2400, heap="12g",
+                              workers=min(8, vf.NCPU), coverage=withcov)
             cov["mc"].append({"config": name, "constants": kw, "distinct": r.distinct, "generated": r.generated, "depth": r.depth,
                               "wall_s": round(r.wall, 1), "never_evaluated": sorted(set(r.coverage_zero))[:30]})
-            if tier == "thorough":
-                dead = [a for a in ("Commit", "Drain", "Subscribe", "Next", "Unsubscribe") if a in r.coverage_zero]
+            if withcov:
+                dead = [a for a in ("Commit", "Drain", "Subscribe", "Next", "Unsubscribe", "Expire", "Restore") if a in r.coverage_zero]
                 if dead:
                     raise vf.Infra("vacuous model check %s: actions never taken %s" % (name, dead))
         # 2. the model of the code as it is: TLC is expected to find the design-level counterexamples that the
         #    known findings record (a counterexample on the model alone is never a violation)
         for name, kw in T["asis"]:
-            r = vf.tlc("StreamMC", "mc.cfg", files={"mc.cfg": _cfg("mc", **kw)}, timeout=1200, heap="8g", workers=min(8, vf.NCPU))
+            with JVM:
+                r = vf.tlc("StreamMC", "mc.cfg", files={"mc.cfg": _cfg("mc", **kw)}, timeout=1200, heap="8g", workers=min(8, vf.NCPU))
             if r.rc != 0 and r.violated is None:
                 raise vf.Infra("as-is model run %s failed rc=%s\n%s" % (name, r.rc, r.out[-2000:]))
             cov["asis_model"].append({"config": name, "constants": kw, "model_violates": r.violated, "distinct": r.distinct})
@@ -311,14 +315,16 @@ def run(tier):
         # 3. schedules generated by TLC from the model of the code as it is
         tagged = []
         for name, kw in T["edge"]:
-            g = vf.tlc_gen("StreamMC", "gen.cfg", files={"gen.cfg": _cfg("gen", **kw)}, timeout=2400, heap="8g")
+            with JVM:
+                g = vf.tlc_gen("StreamMC", "gen.cfg", files={"gen.cfg": _cfg("gen", **kw)}, timeout=2400, heap="8g")
             behs = vf.dedup_behaviours(g.traces)
             tagged += [("edge:" + name, b) for b in behs]
             cov["edge"].append({"config": name, "constants": kw, "transitions": len(g.traces), "behaviours": len(behs),
                                 "distinct_states": g.distinct})
         for j, (name, kw, num, depth) in enumerate(T["sim"]):
-            g = vf.tlc_gen("StreamMC", "sim.cfg", files={"sim.cfg": _cfg("sim", **kw)}, timeout=600, heap="6g",
-                           simulate="num=%d" % num, depth=depth, sseed=seed * 31 + j)
+            with JVM:
+                g = vf.tlc_gen("StreamMC", "sim.cfg", files={"sim.cfg": _cfg("sim", **kw)}, timeout=600, heap="6g",
+                               simulate="num=%d" % num, depth=depth, sseed=seed * 31 + j)
             behs = vf.dedup_behaviours(g.traces)
             tagged += [("simulate:" + name, b) for b in behs]
             cov["simulate"].append({"config": name, "constants": kw, "walks": len(behs), "depth": depth, "seed": seed * 31 + j})
@@ -326,14 +332,14 @@ def run(tier):
         tagged += [("finding:" + os.path.basename(f), json.load(open(f))["replay"]["cmds"]) for f in ffs]
         cov["finding_replays"] = [os.path.basename(f) for f in ffs]
         jobs = []
-        for k, ch in enumerate(_chunks(tagged)):
+        for k, ch in enumerate(_chunks(tagged, T["chunk"])):
             tp = os.path.join(work, "tlc-%d.ndjson" % k)
             meta = harness_replay(binary, [b for _, b in ch], tp, work, "tlc-%d" % k)
             os.remove(os.path.join(work, "beh-tlc-%d.json" % k))
             jobs.append(([src for src, _ in ch], tp, meta))
         # seeded random schedules over a universe larger than TLC's constants
         n, length = T["rnd"]
-        per = max(1, CHUNK_EVENTS // (length + 20))
+        per = max(1, T["chunk"] // (length + 20))
         k = 0
         while n > 0:
             m = min(n, per)
@@ -350,14 +356,14 @@ def run(tier):
         return jobs
 
     try:
-        with concurrent.futures.ThreadPoolExecutor(max_workers=2) as ex:      # one TLC JVM each
+        with concurrent.futures.ThreadPoolExecutor(max_workers=4) as ex:      # TLC runs are throttled by JVM
             f_mc = ex.submit(model_checking)
-            f_sc = ex.submit(schedules)
-            jobs = f_sc.result()
+            jobs = ex.submit(schedules).result()
+            # 4. TLC judges every recorded step
+            results = list(ex.map(lambda j: validate(j[1], j[2]["events"]), jobs))
             f_mc.result()
         states = sum(x["distinct"] for x in cov["mc"])
         transitions = sum(x["generated"] for x in cov["mc"])
-        # 4. TLC judges every recorded step (two JVMs at a time)
         n_beh = n_events = 0
         samples = []
         pred_hits = {}
@@ -366,8 +372,6 @@ def run(tier):
         ante = {}
         conseq = 0
         per_source = {}
-        with concurrent.futures.ThreadPoolExecutor(max_workers=2) as ex:
-            results = list(ex.map(lambda j: validate(j[1], j[2]["events"]), jobs))
         for (srcs, tp, meta), r in zip(jobs, results):
             rows = vf.read_ndjson(tp)
             os.remove(tp)
